@@ -101,11 +101,13 @@ def run(tier, seed):
     reps = rep_cases()
     faults = ["error", "disconnect"]
     plan = [(reps, 1, 0), (reps[::2], 0, 1)] if tier == "quick" else [(reps, 2, 0), (reps, 1, 1), (reps[::2], 0, 2)]
+    bt = lambda cs: [dict(c, batch=True) for c in cs]     # several answers per reactor turn (grid.Sched.batch)
+    plan += [(bt(reps), 0, 0), (bt(reps[::2]), 1, 0), (bt(reps[1::2]), 0, 1)] if tier == "quick" else [(bt(all_cases(tier)[::2]), 0, 0), (bt(reps), 1, 1)]
     desc = []
     for sel, d, f in plan:
         sel = [dict(c, fault_kinds=faults if f else []) for c in sel]
         res.merge(common.pmap(lib_imm.explore_chunk, sel, (seed, d, f, 8000, "C03"), chunks=len(sel)))
-        desc.append("%d cases at d<=%d,f<=%d" % (len(sel), d, f))
+        desc.append("%d cases at d<=%d,f<=%d%s" % (len(sel), d, f, " (several answers per reactor turn)" if sel and sel[0].get("batch") else ""))
     cov = lib_imm.coverage_from(res, "all %d placement x damage x server-kind cases at the default schedule; then %s (d = deviations incl. early OVERDUE timers, f = injected faults %r)" % (n0, "; ".join(desc), faults),
                                 {"deviation_bound_completed": max(p[1] for p in plan), "fault_bound_completed": max(p[2] for p in plan)})
     return res, cov
